@@ -13,11 +13,11 @@ import (
 	"strings"
 	"time"
 
+	"github.com/lindb/common/pkg/encoding"
 	"github.com/lindb/lindb/constants"
 	"github.com/lindb/lindb/coordinator/discovery"
 	"github.com/lindb/lindb/coordinator/master"
 	"github.com/lindb/lindb/models"
-	"github.com/lindb/common/pkg/encoding"
 	"github.com/lindb/lindb/pkg/option"
 	"github.com/lindb/lindb/pkg/state"
 
@@ -46,9 +46,18 @@ func (H) Gen(prop string, rng *rand.Rand, tier string) *core.Plan {
 	}
 	p.Ops = append(p.Ops, core.Op{K: "start"})
 	n := 4 + rng.Intn(36)
+	// master failover (a third of the plans): the master resigns, dies while idle or dies at a tape-chosen point of
+	// its event processing; node and database events go on without a master; a new master (fresh state manager and
+	// state machines on the same repository) takes over B operations later
+	failover := rng.Intn(3) == 0
+	p.Cfg["mcrash_pm"] = []int{10, 40, 150}[rng.Intn(3)]
 	for i := 0; i < n; i++ {
 		node := 1 + rng.Intn(nodes)
 		db := rng.Intn(3)
+		if failover && rng.Intn(8) == 0 {
+			p.Ops = append(p.Ops, core.Op{K: "failover", S: []string{"resign", "crash", "armed"}[rng.Intn(3)], B: int64(rng.Intn(4))})
+			continue
+		}
 		switch r := rng.Intn(100); {
 		case r < 22:
 			p.Ops = append(p.Ops, core.Op{K: "up", T: node})
@@ -83,14 +92,18 @@ type watcher struct {
 	ch      chan *state.Event
 	pending []*state.Event
 	ctx     context.Context
+	inc     int
+	dead    bool // the process that watched is gone
 }
 
 type repo struct {
 	state.Repository // unimplemented methods panic loudly
-	sim      *simrt.Sim
-	kv       map[string][]byte
-	watchers []*watcher
-	maxDelay int
+	sim              *simrt.Sim
+	kv               map[string][]byte
+	watchers         []*watcher
+	maxDelay         int
+	crashPoint       func(what string) // process death of the caller before the operation takes effect
+	starting         map[int]int       // per incarnation: watchers whose first Get has not happened yet
 }
 
 func (r *repo) Get(_ context.Context, key string) ([]byte, error) {
@@ -118,19 +131,25 @@ func (r *repo) List(_ context.Context, prefix string) ([]state.KeyValue, error) 
 
 func (r *repo) notify(typ state.EventType, key string, val []byte) {
 	for _, w := range r.watchers {
-		if strings.HasPrefix(key, w.prefix) && w.ctx.Err() == nil {
+		if strings.HasPrefix(key, w.prefix) && w.ctx.Err() == nil && !w.dead {
 			w.pending = append(w.pending, &state.Event{Type: typ, KeyValues: []state.EventKeyValue{{Key: key, Value: append([]byte(nil), val...)}}})
 		}
 	}
 }
 
 func (r *repo) Put(_ context.Context, key string, val []byte) error {
+	if r.crashPoint != nil {
+		r.crashPoint("put " + key)
+	}
 	r.kv[key] = append([]byte(nil), val...)
 	r.notify(state.EventTypeModify, key, val)
 	return nil
 }
 
 func (r *repo) Delete(_ context.Context, key string) error {
+	if r.crashPoint != nil {
+		r.crashPoint("delete " + key)
+	}
 	if _, ok := r.kv[key]; !ok {
 		return nil
 	}
@@ -140,11 +159,24 @@ func (r *repo) Delete(_ context.Context, key string) error {
 }
 
 // WatchPrefix: an ordered stream per watcher (as etcd guarantees), each event
-// delivered after a tape-chosen delay by the watcher's delivery task.
+// delivered after a tape-chosen delay by the watcher's delivery task. Like lindb's etcd
+// watcher (pkg/state/watch.go) the stream starts - some time after the call, in the watcher's
+// own task - with one EventTypeAll event holding what is stored under the prefix at that
+// moment, followed by every change from then on.
 func (r *repo) WatchPrefix(ctx context.Context, prefix string, _ bool) state.WatchEventChan {
-	w := &watcher{prefix: prefix, ch: make(chan *state.Event, 64), ctx: ctx}
-	r.watchers = append(r.watchers, w)
+	w := &watcher{prefix: prefix, ch: make(chan *state.Event, 64), ctx: ctx, inc: r.sim.CurInc()}
+	inc := r.sim.CurInc()
+	r.starting[inc]++
 	r.sim.Spawn("watch:"+prefix, func() {
+		// Get + Watch(rev+1): snapshot and registration are one step
+		all := &state.Event{Type: state.EventTypeAll}
+		kvs, _ := r.List(ctx, prefix)
+		for _, kv := range kvs {
+			all.KeyValues = append(all.KeyValues, state.EventKeyValue{Key: kv.Key, Value: kv.Value})
+		}
+		w.pending = append(w.pending, all)
+		r.watchers = append(r.watchers, w)
+		r.starting[inc]--
 		for {
 			r.sim.Await(func() bool { return len(w.pending) > 0 || ctx.Err() != nil })
 			if ctx.Err() != nil {
@@ -168,7 +200,15 @@ func (r *repo) WatchPrefix(ctx context.Context, prefix string, _ bool) state.Wat
 func (r *repo) Close() error { return nil }
 
 func (r *repo) idle() bool {
+	for _, n := range r.starting {
+		if n > 0 {
+			return false
+		}
+	}
 	for _, w := range r.watchers {
+		if w.dead || w.ctx.Err() != nil {
+			continue
+		}
 		if len(w.pending) > 0 || len(w.ch) > 0 {
 			return false
 		}
@@ -194,6 +234,16 @@ type run struct {
 	dbs     map[int]*dbModel
 	started bool
 	burst   bool
+
+	fct          *master.StateMachineFactory
+	inc          int // incarnation of the running master
+	mcancel      context.CancelFunc
+	everUp       bool
+	armed        bool // the master dies at a tape-chosen point of its processing
+	restartIn    int  // operations until a new master takes over
+	restartDelay int
+	skipRR       bool // assignments since the last check may come from more than one call / node set
+	tainted      map[int]bool
 }
 
 func dbName(i int) string { return fmt.Sprintf("db%d", i) }
@@ -233,7 +283,7 @@ func (r *run) apply(op core.Op) {
 			r.nodeDown(op.T)
 		}
 	case "createdb":
-		if r.dbs[op.T] != nil {
+		if r.dbs[op.T] != nil || r.tainted[op.T] {
 			return
 		}
 		m := &dbModel{shards: int(op.A), rf: int(op.B), replicas: map[int][]int{}}
@@ -250,6 +300,15 @@ func (r *run) apply(op core.Op) {
 		if r.dbs[op.T] == nil {
 			return
 		}
+		if !r.started {
+			// nobody would ever remove the assignment of a database dropped while there is no master (the new master
+			// learns about present configurations only); what a later database of that name means then is not
+			// something C18 states - the history generator leaves it out
+			return
+		}
+		if r.armed {
+			r.tainted[op.T] = true // the drop may be interrupted half way: the name is not used again
+		}
 		delete(r.dbs, op.T)
 		_ = r.repo.Delete(context.Background(), constants.GetDatabaseConfigPath(dbName(op.T)))
 	case "resync":
@@ -261,6 +320,46 @@ func (r *run) apply(op core.Op) {
 			r.repo.notify(state.EventTypeModify, kv.Key, kv.Value)
 		}
 	}
+}
+
+// startMaster: what OnFailOver does - a fresh state manager and fresh state machines on the same repository, in an
+// incarnation of their own (a master is a process that can die).
+func (r *run) startMaster() bool {
+	sim := r.c.Sim
+	r.inc = sim.NewIncarnation()
+	ctx, cancel := context.WithCancel(context.Background())
+	r.mcancel = cancel
+	inc := r.inc
+	booted := false
+	var err error
+	r.started, r.everUp = true, true
+	sim.SpawnIn(inc, "master-boot", func() {
+		r.mgr = master.NewStateManager(ctx, r.repo, nil)
+		r.fct = master.NewStateMachineFactory(ctx, discovery.NewFactory(r.repo), r.mgr)
+		r.mgr.SetStateMachineFactory(r.fct)
+		err = r.fct.Start()
+		booted = true
+	})
+	sim.Await(func() bool { return booted || r.inc != inc || !r.started })
+	if err != nil {
+		r.c.Anomaly("state machines: %v", err)
+		return false
+	}
+	return true
+}
+
+// masterGone: the running master is no more (resigned or dead); its watches die with it.
+func (r *run) masterGone(kind string) {
+	r.c.Sim.Fault("master-" + kind)
+	r.started, r.armed = false, false
+	r.restartIn = r.restartDelay
+	r.skipRR = true
+	for _, w := range r.repo.watchers {
+		if w.inc == r.inc {
+			w.dead = true
+		}
+	}
+	delete(r.repo.starting, r.inc)
 }
 
 // settle waits until every watch event has been delivered and processed.
@@ -359,7 +458,7 @@ func (r *run) check(after string) {
 			sort.Ints(newShards)
 			// round robin of first replicas within one assignment call.  Several calls may have
 			// happened since the last check (burst): judge only contiguous runs per call when unambiguous.
-			if !r.burst {
+			if !r.burst && !r.skipRR {
 				cnt := map[int]int{}
 				for n := range r.up {
 					cnt[n] = 0
@@ -422,6 +521,7 @@ func (r *run) check(after string) {
 	for n := range r.up {
 		r.aliveU[n] = true
 	}
+	r.skipRR = false
 }
 
 func keys(m map[int]bool) []int {
@@ -444,12 +544,48 @@ func liveIDs(st *models.StorageState) []int {
 
 func (H) Run(c *core.RunCtx) {
 	sim := c.Sim
-	r := &run{c: c, up: map[int]bool{}, aliveU: map[int]bool{}, dbs: map[int]*dbModel{}}
-	r.repo = &repo{sim: sim, kv: map[string][]byte{}, maxDelay: c.Plan.C("delay_ms", 0)}
-	ctx, cancel := context.WithCancel(context.Background())
-	defer cancel()
+	r := &run{c: c, up: map[int]bool{}, aliveU: map[int]bool{}, dbs: map[int]*dbModel{}, tainted: map[int]bool{}}
+	r.repo = &repo{sim: sim, kv: map[string][]byte{}, starting: map[int]int{}, maxDelay: c.Plan.C("delay_ms", 0)}
+	crashP := float64(c.Plan.C("mcrash_pm", 0)) / 1000
+	die := func(what string) {
+		if !r.armed || !r.started || sim.CurInc() != r.inc || !sim.Tape.Chance(crashP) {
+			return
+		}
+		sim.Event("master dies at %s", what)
+		r.masterGone("crash-armed")
+		sim.Kill(r.inc)
+	}
+	r.repo.crashPoint = die
+	sim.OnYield = func(label string) {
+		if r.armed && strings.HasPrefix(label, "master.") {
+			die(label)
+		}
+	}
+	defer func() {
+		sim.OnYield = nil
+		if r.mcancel != nil {
+			r.mcancel()
+		}
+	}()
 	ops := c.Plan.Ops
-	for i := 0; i < len(ops) && !c.Violated(); i++ {
+	for i := 0; i <= len(ops) && !c.Violated(); i++ {
+		if r.everUp && !r.started && (r.restartIn <= 0 || i == len(ops)) {
+			// a new master takes over
+			if !r.startMaster() {
+				return
+			}
+			r.settle()
+			if c.Res.Anomaly != "" {
+				return
+			}
+			r.check("after master take-over")
+		}
+		if !r.started {
+			r.restartIn--
+		}
+		if i == len(ops) {
+			break
+		}
 		op := ops[i]
 		sim.Event("op %s", op.String())
 		switch op.K {
@@ -457,21 +593,35 @@ func (H) Run(c *core.RunCtx) {
 			if r.started {
 				continue
 			}
-			r.started = true
-			r.mgr = master.NewStateManager(ctx, r.repo, nil)
-			fct := master.NewStateMachineFactory(ctx, discovery.NewFactory(r.repo), r.mgr)
-			r.mgr.SetStateMachineFactory(fct)
-			if err := fct.Start(); err != nil {
-				c.Anomaly("state machines: %v", err)
+			if !r.startMaster() {
 				return
 			}
+		case "failover":
+			if !r.started {
+				continue
+			}
+			r.restartDelay = int(op.B)
+			switch op.S {
+			case "resign":
+				// OnResignation: the state machines are stopped, the state manager closed
+				r.fct.Stop()
+				r.mgr.Close()
+				r.mcancel()
+				r.masterGone("resign")
+			case "crash":
+				sim.Kill(r.inc)
+				r.masterGone("crash-idle")
+			default:
+				r.armed = true
+			}
+			continue
 		case "burst":
 			// the next A operations are issued without waiting for the master in between
 			r.burst = true
 			n := int(op.A)
 			for j := 0; j < n && i+1 < len(ops); j++ {
 				i++
-				if ops[i].K == "start" || ops[i].K == "burst" {
+				if ops[i].K == "start" || ops[i].K == "burst" || ops[i].K == "failover" {
 					continue
 				}
 				sim.Event("op(burst) %s", ops[i].String())
@@ -486,6 +636,9 @@ func (H) Run(c *core.RunCtx) {
 		r.settle()
 		if c.Res.Anomaly != "" {
 			return
+		}
+		if !r.started {
+			continue // the master died while it processed the events of this operation
 		}
 		r.check("after " + op.String())
 		r.burst = false
